@@ -35,6 +35,41 @@ CHECKS = {
         "drained after every operation",
    tech="TLA+ model checking + TLC trace validation of real executions"),
 }
+SYSNOTE = 'seeded random schedules only so far at system level (no exhaustive schedule enumeration of the real code); token scheduler serialises logical threads between yield points (QUILL_VERIF hooks, interposed clock/sleep); relaxed flags outside the queues behave sequentially consistent under it'
+CHECKS.update({
+ "C03": dict(engine="tlc+h_sys", cat=MC, ref="4 C03",
+   text="executions of the real frontend/backend under seeded schedules (several threads, sizes up to the queue capacity, thread exits, flushes, fine-grained backend steps) are validated by TLC against QuillContract (exactly once, per-thread order, completeness at quiescence)",
+   note=SYSNOTE,
+   tech="TLA+ contract monitor + TLC trace validation of real executions under a deterministic scheduler"),
+ "C05": dict(engine="tlc+h_sys", cat=MC, ref="4 C05",
+   text="executions under a virtual clock (stalls between clock read and enqueue, ticks, fine-grained backend steps) validated by TLC against QuillContract: write timestamps non-decreasing while no enqueue exceeded the grace period",
+   note=SYSNOTE,
+   tech="TLA+ contract monitor + TLC trace validation of real executions under a deterministic scheduler"),
+ "C06": dict(engine="tlc+h_sys", cat=MC, ref="4 C06",
+   text="executions with flush_log calls (incl. first-time threads, dropping queues) validated by TLC against QuillContract: at return every earlier statement (own; all threads when ordering is on) is written and covered by a later sink flush; stuck flush = violation",
+   note=SYSNOTE,
+   tech="TLA+ contract monitor + TLC trace validation of real executions under a deterministic scheduler"),
+ "C08": dict(engine="tlc+h_sys", cat=MC, ref="4 C08",
+   text="executions on dropping queues validated by TLC against QuillContract: false return iff never written, accepted => delivered, reported discard counts add up at final quiescence (bounded), control requests never discarded",
+   note=SYSNOTE,
+   tech="TLA+ contract monitor + TLC trace validation of real executions under a deterministic scheduler"),
+ "C10": dict(engine="tlc+h_sys", cat=MC, ref="4 C10",
+   text="executions with scripted faults (format mismatch, throwing user formatters std/non-std, backtrace without init, sinks throwing on chosen write/flush calls) validated by TLC against QuillContract: every other statement delivered once in order, faults reported, backend alive, flush returns",
+   note=SYSNOTE,
+   tech="TLA+ contract monitor + TLC trace validation of real executions under a deterministic scheduler"),
+ "C16": dict(engine="tlc+h_sys", cat=MC, ref="4 C16",
+   text="executions with random logger/sink levels, filters and changes, static/dynamic/macro statements validated by TLC against QuillContract: enqueued iff level passes at the call, arguments evaluated iff enqueued, per-sink level and filters, reported level",
+   note=SYSNOTE,
+   tech="TLA+ contract monitor + TLC trace validation of real executions under a deterministic scheduler"),
+ "C17": dict(engine="tlc+h_sys", cat=MC, ref="4 C17",
+   text="executions with create/get/remove/remove_blocking/re-create cycles and shared sinks validated by TLC against QuillContract: nothing logged before removal is lost, sinks destroyed only when unreferenced, blocking removal returns after completion, idempotent create/get",
+   note=SYSNOTE,
+   tech="TLA+ contract monitor + TLC trace validation of real executions under a deterministic scheduler"),
+ "C20": dict(engine="tlc+h_sys", cat=MC, ref="4 C20",
+   text="executions with thread start/log/exit/shrink schedules and N short-lived threads between idle periods (N around 256, 512..) validated by TLC against QuillContract: retained contexts = live threads that logged, shrink takes effect, delivery intact",
+   note=SYSNOTE,
+   tech="TLA+ contract monitor + TLC trace validation of real executions under a deterministic scheduler"),
+})
 PENDING = "check under construction in this round (not yet claimed)"
 
 man = {"version": 1, "setup_cmd": "cd /verif && ./setup.sh",
